@@ -16,9 +16,34 @@ KNOWN = os.path.join(VERIF, "known_findings.json")
 _WORK = None
 
 
+class WorkerError(Exception):
+    """an exception raised inside a pmap worker, with what main.py needs to classify it (the traceback does not survive the process boundary)"""
+
+    def __init__(self, name, text, tb, in_impl, inner, kind_ok):
+        Exception.__init__(self, "%s: %s" % (name, text))
+        self.name, self.text, self.tb, self.in_impl, self.inner, self.kind_ok = name, text, tb, in_impl, inner, kind_ok
+
+
+def describe_exception():
+    """(name, text, traceback text, raised inside the code under test?, innermost file, is it a read-failure kind?) for the exception being handled"""
+    import traceback
+    et, ev, tb = sys.exc_info()
+    frames = traceback.extract_tb(tb)
+    repo = os.path.realpath(os.environ.get("VERIF_REPO", "/repo"))
+    in_impl = any(os.path.realpath(f.filename).startswith(os.path.join(repo, "menelaus")) for f in frames)
+    inner = frames[-1].filename if frames else ""
+    kind_ok = isinstance(ev, (TypeError, AttributeError, KeyError, IndexError, ValueError, AssertionError))
+    return et.__name__, str(ev)[:300], traceback.format_exc()[-3000:], in_impl, inner, kind_ok
+
+
 def _call(i):
     fn, items = _WORK
-    return fn(*items[i])
+    try:
+        return fn(*items[i])
+    except MachineryError:
+        raise
+    except Exception:  # noqa - classified in the parent
+        return ("__WORKER_EXCEPTION__",) + describe_exception()
 
 
 def pmap(fn, items, procs=None):
@@ -33,7 +58,11 @@ def pmap(fn, items, procs=None):
     _WORK = (fn, items)
     try:
         with mp.get_context("fork").Pool(procs) as pool:
-            return pool.map(_call, range(len(items)), chunksize=max(1, len(items) // (procs * 8)))
+            out = pool.map(_call, range(len(items)), chunksize=max(1, len(items) // (procs * 8)))
+        for r in out:
+            if isinstance(r, tuple) and r and r[0] == "__WORKER_EXCEPTION__":
+                raise WorkerError(*r[1:])
+        return out
     finally:
         _WORK = None
 
